@@ -7,6 +7,7 @@ package main
 import (
 	gosql "database/sql"
 	"fmt"
+	"math/big"
 	"net"
 	"strings"
 	"time"
@@ -17,6 +18,7 @@ import (
 	"github.com/dolthub/go-mysql-server/memory"
 	"github.com/dolthub/go-mysql-server/server"
 	gsql "github.com/dolthub/go-mysql-server/sql"
+	"github.com/dolthub/go-mysql-server/sql/types"
 
 	"verifharness/lib"
 	"verifharness/lib/eng"
@@ -244,6 +246,10 @@ func (w *wireEnv) row(c *lib.Ctx, cs caseT) {
 			if stored == nil {
 				continue
 			}
+			if what, ok := wireDenotes(col.Decl, proto, stored, recv); !ok {
+				c.PredFail(cid, sig+"/denotes-different-value", fmt.Sprintf("%s %s: stored %v, client received %q, which denotes %s", col.Name, col.Decl, stored, recv, what), cs)
+				continue
+			}
 			back, _, err := t.Convert(ctx, string(recv))
 			if err != nil {
 				c.PredFail(cid, sig+"/not-convertible", fmt.Sprintf("%s %s: stored %v, client received %q: %v", col.Name, col.Decl, stored, recv, err), cs)
@@ -267,8 +273,134 @@ func wirePhase(c *lib.Ctx, n int) {
 		n = 1500 + (n-1500)/20
 	}
 	w := newWireEnv()
-	defer w.close()
 	for i := 0; i < n; i++ {
 		w.row(c, genWire(c.R.Fork()))
+	}
+	w.close()
+	for i := 0; i < 2+n/2000; i++ {
+		runWireSlow(c, caseT{Kind: "wireslow", P: c.R.Range(130, 900)})
+	}
+}
+
+// wireDenotes: independent reading (math/big) of what the client received for integer and TIME columns.
+func wireDenotes(decl, proto string, stored interface{}, recv []byte) (string, bool) {
+	switch {
+	case strings.Contains(decl, "INT"):
+		z, ok := new(big.Int).SetString(string(recv), 10)
+		if !ok {
+			return "no integer", false
+		}
+		return z.String(), z.String() == fmt.Sprint(stored)
+	case strings.HasPrefix(decl, "TIME(") && proto == "text": // binary: fraction lost, a known finding judged below
+		x, ok := usOfTimeText(string(recv))
+		if !ok {
+			return "no time", false
+		}
+		return fmt.Sprintf("%d microseconds", x), x == int64(stored.(types.Timespan))
+	}
+	return "", true
+}
+
+// ---------- slow client, result of several hundred rows ----------
+// The server spools results in batches of 128 rows through a queue; a client that reads more slowly than the engine
+// produces must still receive, for every row, the values of THAT row (no value may alias a buffer reused for later rows).
+// Each row carries values derived from its id and a ~1.5 kB distinct pad so that the socket fills up.
+
+func slowPad(id int) string {
+	return strings.Repeat(fmt.Sprintf("<%05d>", id), 214) // 1498 bytes
+}
+
+func runWireSlow(c *lib.Ctx, cs caseT) {
+	n := cs.P
+	w := newWireEnv()
+	defer w.close()
+	w.s.MustExec("CREATE TABLE big (id INT PRIMARY KEY, a BIGINT, u BIGINT UNSIGNED, d DECIMAL(20,5), ts DATETIME(6), tm TIME(6), e ENUM('a','B','x y'), pad VARCHAR(2000))")
+	var sb strings.Builder
+	for id := 1; id <= n; id++ {
+		if sb.Len() > 0 {
+			sb.WriteString(", ")
+		}
+		fmt.Fprintf(&sb, "(%d, %d, %d, '%d.%05d', '%04d-%02d-%02d %02d:%02d:%02d.%06d', '%s%d:%02d:%02d.%06d', %d, '%s')",
+			id, int64(id)*-1000003, uint64(1)<<63+uint64(id)*7919, id*31, id%100000,
+			1000+id*7%9000, 1+id%12, 1+id%28, id%24, id%60, (id*7)%60, (id*999983)%1000000,
+			[]string{"", "-"}[id%2], id%839, id%60, (id*13)%60, (id*7919)%1000000, 1+id%3, slowPad(id))
+		if id%100 == 0 || id == n {
+			w.s.MustExec("INSERT INTO big VALUES " + sb.String())
+			sb.Reset()
+		}
+	}
+	st := w.s.Query("SELECT * FROM big ORDER BY id")
+	if st.Err != nil || len(st.Rows) != n {
+		panic(fmt.Sprintf("stored rows not readable: %v", st.Err))
+	}
+	cid := c.CaseNoModel(cs, fmt.Sprintf("wireslow|%d", n))
+	c.Count("wire_slow_result")
+	for _, proto := range []string{"text", "binary"} {
+		var rows *gosql.Rows
+		var err error
+		if proto == "text" {
+			rows, err = w.db.Query("SELECT * FROM big ORDER BY id")
+		} else {
+			rows, err = w.db.Query("SELECT * FROM big WHERE id > ? ORDER BY id", 0)
+		}
+		if err != nil {
+			c.PredFail(cid, "wireslow/"+proto+"/query-error", err.Error(), cs)
+			continue
+		}
+		c.PredChecked()
+		time.Sleep(300 * time.Millisecond) // let the engine run ahead of the client
+		got := 0
+		bad := false
+		for rows.Next() {
+			raw := make([]gosql.RawBytes, 8)
+			ptr := make([]interface{}, 8)
+			for i := range raw {
+				ptr[i] = &raw[i]
+			}
+			if err := rows.Scan(ptr...); err != nil {
+				c.PredFail(cid, "wireslow/"+proto+"/scan-error", err.Error(), cs)
+				bad = true
+				break
+			}
+			if got >= n {
+				got++
+				continue
+			}
+			for i := range raw {
+				stored := st.Rows[got][i]
+				t := st.Schema[i].Type
+				ok := raw[i] != nil && stored != nil
+				if ok && i == 7 {
+					ok = string(raw[i]) == stored.(string)
+				} else if ok && (proto == "text" || i != 5) { // binary TIME(6): fraction lost (known finding)
+					back, _, err := t.Convert(ctx, string(raw[i]))
+					if err != nil {
+						ok = false
+					} else if cmp, err := t.Compare(ctx, back, stored); err != nil || cmp != 0 {
+						ok = false
+					}
+				}
+				if !ok && !bad {
+					bad = true
+					recv := string(raw[i])
+					if len(recv) > 60 {
+						recv = recv[:60] + "..."
+					}
+					c.PredFail(cid, "wireslow/"+proto+"/row-has-foreign-value",
+						fmt.Sprintf("%d-row result read slowly: row %d column %s: stored %.60v, client received %q", n, got+1, st.Schema[i].Name, stored, recv), cs)
+				}
+			}
+			got++
+			if got%16 == 0 && got <= 400 {
+				time.Sleep(2 * time.Millisecond)
+			}
+		}
+		if err := rows.Err(); err != nil && !bad {
+			c.PredFail(cid, "wireslow/"+proto+"/stream-error", err.Error(), cs)
+		}
+		rows.Close()
+		if got != n && !bad {
+			c.PredFail(cid, "wireslow/"+proto+"/row-count", fmt.Sprintf("%d rows stored, %d received", n, got), cs)
+		}
 	}
 }
